@@ -480,6 +480,14 @@ func EnableStalls(permille int) {
 // Now is the simulated time since the start of the run.
 func Now() time.Duration { return time.Since(cur.start) }
 
+// SetDate moves the fake clock to date (sleeping) and makes it the origin of Now().
+func SetDate(date time.Time) {
+	Yield("set-date")
+	time.Sleep(time.Until(date))
+	cur.start = time.Now()
+	Yield("wake")
+}
+
 // Sleep is a yielding sleep on the fake clock.
 func Sleep(d time.Duration) {
 	Yield("sleep")
